@@ -47,7 +47,7 @@ StateChecks(r) ==
     representative |-> LET endpointsOK == \A p \in AllEnvs(s.net) : p[1].src \in Ids(sys) /\ p[1].dst \in Ids(sys)
                                            /\ \A e \in s.net.last : e.src \in Ids(sys) /\ e.dst \in Ids(sys)
                        IN [a |-> r.has_rep /\ endpointsOK,
-                           c |-> (r.has_rep /\ endpointsOK) => (~r.rep_panicked /\ Abs(r.rep) = Representative(s))]
+                           c |-> (r.has_rep /\ endpointsOK) => (~r.rep_panicked /\ Abs(r.rep) = RepresentativeE("wrap" \in DOMAIN sys /\ sys.wrap = "ids", s))]
   ]
 
 (* per system: identity (C04) and the real checkers' counts (C04, C09) *)
